@@ -22,7 +22,9 @@ EXPLANATION = (
     "through self.conn_impl, _HttpConnImpl is constructed only when the constructor is not given a connection. "
     "R16e: the id generator has exactly one call site, control-dependent on 'counter enabled' and on the caller not "
     "having supplied the same header key that is then stored. R16f: the id format embeds the un-reduced counter, so "
-    "distinct numbers give distinct ids. Covers every interleaving because the rule quantifies over program points, "
+    "distinct numbers give distinct ids. R16g: the generated id is stored into a headers dict of this call (on every path of "
+    "do_request's flow graph, helpers expanded, `headers` was re-bound to the request record's copy or a fresh dict), never "
+    "into the caller's own dict. Covers every interleaving because the rule quantifies over program points, "
     "not schedules; trusts CPython's `with lock` semantics."
 )
 
